@@ -53,6 +53,7 @@ def endOfLine (b : Bytes) (index : Nat) : Nat :=
 /-- jerr.quote: the line around `position`, left-trimmed, at most 200 bytes.
     `none` = panic (empty content, or slice bounds) -/
 def quote (b : Bytes) (position : Nat) : Option Bytes :=
+  if b.isEmpty then some [] else
   match beginningOfLine b position with
   | none => none
   | some bg =>
